@@ -63,8 +63,8 @@ Print Assumptions C01_stale_lock_refuted.
    protocol, hence agrees.
 
    [run_net n byz blocks evs]: the network after ANY event list (illegal
-   events — a vote that nobody sent, a Byzantine vote signed for a correct slot —
-   are ignored); [decided_of net i]: the block engine i handed to Finalize;
+   events — a vote that nobody signed (not in [csoup]), a Byzantine vote signed
+   for a correct slot — are ignored); [decided_of net i]: the block engine i handed to Finalize;
    [correct n byz i]: i < n and not Byzantine; [nbyz n byz]: number of Byzantine
    slots; [soup byz net]: all votes sent by correct engines or injected by
    Byzantine slots; [count_precommits sp n r b]: number of slots < n with a
@@ -73,11 +73,16 @@ From Coq Require Import ZArith.
 From Goloop Require Import Model_ConsensusNode Model_ConsensusNet.
 From Goloop Require Proofs_ConsensusNet_Link Proofs_ConsensusNet.
 
-(* the property at full strength (all event lists, crash points inside events included) *)
+(* the property at full strength: ALL event lists (crash points inside events
+   included).  The only side condition is on the block table: a part set has at
+   least one part (PartSetID.Count >= 1 in the code; with a zero-part block the
+   lock WAL entry of the model would never be complete).  Proved below as
+   [C01_agreement] / [C01_full_statement_holds]. *)
 Definition C01_full_statement : Prop :=
-  forall (n : nat) (byz : nat -> bool) (blocks : list blk) (evs : list nev),
+  forall (n : nat) (byz : nat -> bool) (blocks : list blk),
+    (forall x, In x blocks -> (1 <= b_parts x)%N) ->
     (3 * nbyz n byz < n)%nat ->
-    forall i j v w, correct n byz i -> correct n byz j ->
+    forall (evs : list nev) i j v w, correct n byz i -> correct n byz j ->
       decided_of (run_net n byz blocks evs) i = Some v ->
       decided_of (run_net n byz blocks evs) j = Some w -> v = w.
 
@@ -188,3 +193,54 @@ Theorem C01_restart_lock_restored :
       cur s0 = locked s0.
 Proof. exact Proofs_ConsensusNet_LockWAL.restart_lock_restored. Qed.
 Print Assumptions C01_restart_lock_restored.
+
+(* ================================================================== *)
+(* Part C: the property at full strength — ALL event lists: any crash point
+   inside any event ([fuse = Some k]: the process dies after k outputs of the
+   event), any number of surviving unsynced WAL records, any restarts.
+   Proofs: Proofs_ConsensusNet2_Sim.v / _Run.v / Proofs_ConsensusNet2.v. *)
+From Goloop Require Proofs_ConsensusNet2.
+
+Theorem C01_agreement :
+  forall (n : nat) (byz : nat -> bool) (blocks : list blk),
+    (forall x, In x blocks -> (1 <= b_parts x)%N) ->
+    (3 * nbyz n byz < n)%nat ->
+  forall (evs : list nev) i j v w, correct n byz i -> correct n byz j ->
+    decided_of (run_net n byz blocks evs) i = Some v ->
+    decided_of (run_net n byz blocks evs) j = Some w -> v = w.
+Proof. exact Proofs_ConsensusNet2.agreement. Qed.
+Print Assumptions C01_agreement.
+
+Theorem C01_full_statement_holds : C01_full_statement.
+Proof. exact Proofs_ConsensusNet2.agreement. Qed.
+Print Assumptions C01_full_statement_holds.
+
+(* a block is finalized only after more than 2n/3 of the validator slots have a
+   precommit for it in ONE round among the Byzantine votes and the votes the
+   correct engines made durable ([csoup]: synced round-WAL vote records; every
+   vote that was sent is among them, and an engine's own durable precommit counts
+   in its own vote set even if the crash came before the broadcast) *)
+Theorem C01_finalize_needs_quorum :
+  forall (n : nat) (byz : nat -> bool) (blocks : list blk),
+    (forall x, In x blocks -> (1 <= b_parts x)%N) ->
+    (3 * nbyz n byz < n)%nat ->
+  forall (evs : list nev) i b, correct n byz i ->
+    decided_of (run_net n byz blocks evs) i = Some b ->
+    exists r, (0 <= r)%Z /\
+      over23 (count_precommits (csoup byz (run_net n byz blocks evs)) n r b) n = true.
+Proof. exact Proofs_ConsensusNet2.finalize_needs_quorum. Qed.
+Print Assumptions C01_finalize_needs_quorum.
+
+Theorem C01_refinement :
+  forall (n : nat) (byz : nat -> bool) (blocks : list blk),
+    (forall x, In x blocks -> (1 <= b_parts x)%N) ->
+    (3 * nbyz n byz < n)%nat ->
+  forall evs : list nev,
+    exists T, TM.reachable n byz T /\
+      forall i s, correct n byz i -> node_of (run_net n byz blocks evs) i = Some s ->
+        (forall m, In m (TM.soup T) <->
+           exists v, In v (csoup byz (run_net n byz blocks evs)) /\ Proofs_ConsensusNet_Link.conv v = m) /\
+        (status_ s = Running -> TM.lock T i = Proofs_ConsensusNet_Link.convlock (lock_of s)) /\
+        (forall b, decided s = Some b -> TM.decided T i = Some b).
+Proof. exact Proofs_ConsensusNet2.refinement. Qed.
+Print Assumptions C01_refinement.
